@@ -16,6 +16,7 @@
     its failure behaviour is the subject of C18). *)
 From Coq Require Import List Arith NArith Bool.
 From OBI.Common Require Import Reseq.
+From OBI.C04 Require Import Json Csv.
 Import ListNotations.
 
 Definition chunk := list N.
@@ -96,6 +97,16 @@ Definition json_expected (l : list chunk) : list N :=
   json_open ++ join json_sep (filter nonempty l) ++ json_close.
 
 (** ---- correspondence *)
+(* compact rendering of long periodic byte runs in generated case files: the first n bytes of pat pat pat ... *)
+Fixpoint cyc_aux (n : nat) (pat cur : list N) : list N :=
+  match n with
+  | O => []
+  | Datatypes.S n' => match cur with
+            | x :: r => x :: cyc_aux n' pat r
+            | [] => match pat with [] => [] | x :: r => x :: cyc_aux n' pat r end
+            end
+  end.
+Definition cyc (n : N) (pat : list N) : list N := cyc_aux (N.to_nat n) pat pat.
 Inductive wkind := KFasta | KFastq | KJson | KCsv.
 Record ccase := mkc { ck : wkind; cheader : chunk; cchunks : list chunk; carrival : list nat;
                       cout : list N; ccloses : nat }.
@@ -129,3 +140,78 @@ Fixpoint mismatches_from (f : ccase -> dev) (i : nat) (l : list ccase) : list na
   end.
 Definition mismatches := mismatches_from run_case 0.
 Definition mismatches_orig := mismatches_from run_case_orig 0.
+
+(** ================= round 2: the formatters over RECORDS, and the completion order *)
+
+(** ---- JSON: FormatJSONBatch (Json.format_json_batch) gives the chunk of a batch of serialised records *)
+Definition json_chunks (batches : list (list (list N))) : list chunk := map format_json_batch batches.
+Definition json_records_expected (recs : list (list N)) : list N :=
+  json_open ++ jjoin jsep (map indent recs) ++ json_close.
+
+(** ---- CSV: FormatCVSBatch (Csv.format_csv_batch) gives the chunk of batch k: the header line travels in batch 0 *)
+Definition csv_record_chunks (hdr : list field) (batches : list (list (list field))) : list chunk :=
+  csv_batches_from hdr 0 batches.
+
+(** ---- completion order.  The goroutine that ends the iterator RETURNED by a writer (the "closer") runs
+    a fixed script once every formatting worker is done; the writer goroutine closes the sink at some
+    moment after the chunk channel has been closed.  [sees_closed script] = what an observer of the
+    end of the result iterator is guaranteed to find: Some true = the sink is closed, Some false = it
+    may still be open (bytes may be missing), None = the script blocks for ever. *)
+Inductive cact := AIterClose | AChanClose | AWaitWriter.
+Record cst := mkcst { chan_closed : bool; sink_closed : bool; seen : option bool }.
+Definition cstep (s : option cst) (a : cact) : option cst :=
+  match s with
+  | None => None
+  | Some s =>
+    match a with
+    | AChanClose => Some (mkcst true (sink_closed s) (seen s))
+    | AWaitWriter => if chan_closed s then Some (mkcst true true (seen s)) else None   (* the writer loop never ends *)
+    | AIterClose => Some (mkcst (chan_closed s) (sink_closed s) (Some (sink_closed s)))
+    end
+  end.
+Definition sees_closed (script : list cact) : option bool :=
+  match fold_left cstep script (Some (mkcst false false None)) with
+  | Some s => seen s
+  | None => None
+  end.
+(* unrepaired writers: newIter.WaitAndClose(); close(chunkchan); [waitWriter.Wait()] *)
+Definition closer_orig : list cact := [AIterClose; AChanClose; AWaitWriter].
+(* repaired: newIter.Wait(); close(chunkchan); <-written; newIter.Close() *)
+Definition closer : list cact := [AChanClose; AWaitWriter; AIterClose].
+(* what the observer of the end of the result iterator finds in the sink *)
+Definition at_iter_end (final : dev) (script : list cact) : option dev :=
+  match sees_closed script with
+  | Some true => Some final
+  | _ => None          (* nothing is guaranteed *)
+  end.
+
+(** ---- correspondence, round 2: formatted chunks, grammar of the output, rows *)
+Inductive fcase :=
+| FJson (recs : list (list (list N))) (chunks : list (list N)) (out : list N)
+| FCsv (hdr : list field) (rows : list (list (list field))) (fchunks : list (list N)) (out : list N)
+| FText (t : list N) (valid : bool).       (* the recogniser against a reference JSON parser *)
+Fixpoint nll_eqb (a b : list (list N)) : bool :=
+  match a, b with [], [] => true | x :: a', y :: b' => nlist_eqb x y && nll_eqb a' b' | _, _ => false end.
+Fixpoint nlll_eqb (a b : list (list (list N))) : bool :=
+  match a, b with [], [] => true | x :: a', y :: b' => nll_eqb x y && nlll_eqb a' b' | _, _ => false end.
+Definition fcase_ok (c : fcase) : bool :=
+  match c with
+  | FJson recs chunks out =>
+    nll_eqb (json_chunks recs) chunks && forallb json_object (concat recs) &&
+    nlist_eqb (json_records_expected (concat recs)) out && json_text out &&
+    match json_array_objects out with Some els => nll_eqb els (concat recs) | None => false end
+  | FCsv hdr rows fchunks out =>
+    nll_eqb (csv_record_chunks hdr rows) fchunks && nlist_eqb (csv_expected hdr rows) out &&
+    match csv_records out, rows with
+    | Some rs, _ :: _ => nlll_eqb rs (hdr :: concat rows)
+    | Some [], [] => true
+    | _, _ => false
+    end
+  | FText t valid => Bool.eqb (json_text t) valid
+  end.
+Fixpoint fmismatches_from (i : nat) (l : list fcase) : list nat :=
+  match l with
+  | [] => []
+  | c :: l' => let rest := fmismatches_from (Datatypes.S i) l' in if fcase_ok c then rest else i :: rest
+  end.
+Definition fmismatches := fmismatches_from 0.
